@@ -44,6 +44,7 @@ type Result struct {
 	Packages  int
 	GenErrs   []string // cff invocations that failed
 	Outside   []FileCmp           // source vs generated outside directive sites
+	Tags      []FileCmp           // build-constraint inversion, per file
 	Tokens    map[string]map[string][]string // corpus -> rel path -> comment-free token stream of the generated file
 }
 
@@ -245,6 +246,7 @@ func analyse(res *Result, c Corpus, dir string, env []string, directives map[str
 			}
 			res.Instances = append(res.Instances, instancesOf(c.Name, rel, p, f, sf.pkg, sf.file, srcFset)...)
 			res.Outside = append(res.Outside, compareOutside(c.Name+"/"+rel, sf.pkg, sf.file, srcFset, p, f))
+			res.Tags = append(res.Tags, compareConstraints(c.Name+"/"+rel, sf.file, f))
 		}
 	}
 	return nil
